@@ -74,6 +74,7 @@ type Registry struct {
 	pkgVars    map[string]string
 	opaque     map[string]string // qualified named type -> opaque sort (from spec)
 	ghostVars  map[string]string // ghost variable name -> heap component
+	imm        map[string]bool   // immutable field components (functions of the reference)
 }
 
 func NewRegistry() *Registry {
@@ -82,7 +83,7 @@ func NewRegistry() *Registry {
 		maps: map[string]*MapInfo{}, structs: map[string]*StructInfo{}, ptrs: map[string]*PtrInfo{},
 		sliceElems: map[string]string{}, boxes: map[string]*BoxInfo{}, strLits: map[string]string{},
 		typeSorts: map[string]string{}, ifaceImpl: map[string]*types.Interface{}, allocOf: map[string]string{},
-		pkgVars: map[string]string{}, opaque: map[string]string{}, ghostVars: map[string]string{},
+		pkgVars: map[string]string{}, opaque: map[string]string{}, ghostVars: map[string]string{}, imm: map[string]bool{},
 	}
 	r.sortsDecl = append(r.sortsDecl,
 		"(declare-sort Any 0)", "(declare-sort Str 0)", "(declare-sort SRef 0)",
